@@ -11,6 +11,7 @@ of the real code is compared with the property's statement computed from the
 raw dicts (markers_util.spec_genes / expectation).
 """
 import copy
+import gc
 import glob
 import json
 import os
@@ -259,6 +260,17 @@ def check_unit(ctx, case, label, workdir, metamorphic=True):
                                              name='cache3.h5')
         m3 = ctx.model('markers.createCache', inp2)
         ctx.evaluations += 1
+        # without a taxonomy every list is kept as it is: a listed gene the
+        # reference lacks must end the call, in the query or not
+        listed = set(g for _, v in case['entries'] for g in v)
+        if v3 == 'ok' and any(g not in set(case['R']) for g in listed):
+            ctx.violation(
+                'C08/errors/accepted/marker-unknown-to-reference/no-taxonomy',
+                'create_marker_cache_from_specified_markers(taxonomy_tree='
+                'None) accepts a table listing %r, unknown to the reference'
+                % sorted(g for g in listed if g not in set(case['R']))[:3],
+                dict(detail, with_tree=False))
+            failed = True
         if 'err' in m3:
             same = (m3['err'] == v3)
         else:
@@ -308,8 +320,64 @@ def effective(case, drop_level, flatten):
     return tree, entries
 
 
-def gen_pipeline_case(rng):
-    case = mu.gen_case(rng, max_depth=3, pipeline_safe=(rng.random() < 0.85))
+def gen_drop_case(rng):
+    """aimed at drop_level: three levels; the middle one is dropped; most top
+    nodes have exactly ONE child at the dropped level and >= 2 grandchildren,
+    so they are consulted only in the reduced tree; their own lists hold fewer
+    than min_markers genes of the query (or are missing / empty), so that the
+    ancestor fallback of the REDUCED tree decides what they use"""
+    levels = rng.sample(['class', 'subclass', 'supertype', 'L0', 'zeta'], 2) \
+        + ['cluster']
+    names = gen.fresh_names(rng, 40)
+    it = iter(names)
+    tree = {'hierarchy': levels, levels[0]: {}, levels[1]: {}, levels[2]: {}}
+    for _ in range(rng.randint(1, 3)):
+        top = next(it)
+        mids = [next(it) for _ in range(1 if rng.random() < 0.75
+                                        else rng.randint(2, 3))]
+        tree[levels[0]][top] = mids
+        for md in mids:
+            kids = [next(it) for _ in range(rng.randint(2, 3))]
+            tree[levels[1]][md] = kids
+            for k in kids:
+                tree[levels[2]][k] = []
+    pool = rng.sample(mu.GENE_POOL, rng.randint(8, 14))
+    n_sh = rng.randint(5, len(pool) - 1)
+    shared, r_only = pool[:n_sh], pool[n_sh:]
+    Q = shared + ['qx%d' % i for i in range(rng.randint(0, 2))]
+    R = shared + r_only
+    rng.shuffle(Q)
+    rng.shuffle(R)
+    m = rng.choice([2, 2, 3, 4])
+    entries = [[None, rng.sample(shared, rng.randint(m, len(shared)))]]
+    for top in tree[levels[0]]:
+        x = rng.random()
+        if x < 0.15:
+            pass                                     # missing
+        elif x < 0.25:
+            entries.append([[levels[0], top], []])
+        else:
+            k = rng.choice([0, 1, m - 1, m - 1, m])
+            genes = rng.sample(shared, min(k, len(shared)))
+            if rng.random() < 0.4:
+                genes += rng.sample(r_only, 1)
+            entries.append([[levels[0], top], genes])
+    for md in tree[levels[1]]:
+        if rng.random() < 0.85:
+            entries.append([[levels[1], md],
+                            rng.sample(shared, rng.randint(1, len(shared)))])
+    rng.shuffle(entries)
+    return {'tree': tree, 'entries': entries, 'Q': Q, 'R': R, 'm': m}, \
+        levels[1]
+
+
+def gen_pipeline_case(rng, aimed_drop=False):
+    forced_drop = None
+    if aimed_drop:
+        case, forced_drop = gen_drop_case(rng)
+    else:
+        case = mu.gen_case(rng, max_depth=3,
+                           pipeline_safe=(rng.random() < 0.85))
     tree = case['tree']
     h = tree['hierarchy']
     leaves = list(tree[h[-1]].keys())
@@ -324,6 +392,8 @@ def gen_pipeline_case(rng):
         flatten = True
     elif x < 0.45 and len(h) > 1:
         drop_level = rng.choice(h[:-1] + ['not_a_level'])
+    if forced_drop is not None:
+        drop_level, flatten = forced_drop, False
     case = dict(case)
     case.update({
         'X': X.tolist(), 'cells': ['c%d' % i for i in range(n_cells)],
@@ -371,6 +441,13 @@ def check_pipeline(ctx, case, label):
             res = pipeline.run_mapping(cfg)
         finally:
             os.environ.pop('CELL_TYPE_MAPPER_VERIF_TRACE', None)
+        # keep the verdict, drop the exception (its traceback keeps the
+        # mapper's FileTracker alive, which prints when it is collected)
+        res_verdict = 'ok' if res['ok'] else mu.classify_error(res['error'])
+        res_error_text = str(res['error'])[:300]
+        res['error'] = None
+        with pipeline.quiet():
+            gc.collect()
         events = []
         for f in glob.glob(str(trace) + '.*'):
             for line in pathlib.Path(f).read_text().splitlines():
@@ -378,7 +455,7 @@ def check_pipeline(ctx, case, label):
                 if ev.get('kind') == 'node':
                     events.append(ev)
     ctx.traces += 1
-    verdict = 'ok' if res['ok'] else mu.classify_error(res['error'])
+    verdict = res_verdict
     detail['impl'] = verdict
     ctx.count('pipeline:' + label)
     ctx.count('pipeline-verdict:' + verdict.split(':')[0])
@@ -426,7 +503,7 @@ def check_pipeline(ctx, case, label):
             ctx.violation('C08/errors/rejected-valid/'
                           + verdict.split(':')[0],
                           'run with a marker table satisfying the property '
-                          'fails: %s' % str(res['error'])[:300], detail)
+                          'fails: %s' % res_error_text, detail)
             failed = True
     else:
         mg = res['json'].get('marker_genes', {})
@@ -534,7 +611,11 @@ def run(ctx):
                 for label, c2 in one_edit_variants(rng, case):
                     check_unit(ctx, c2, label, d, metamorphic=False)
     for i in range(n_pipe):
-        check_pipeline(ctx, gen_pipeline_case(rng), 'random')
+        if i % 3 == 2:
+            check_pipeline(ctx, gen_pipeline_case(rng, aimed_drop=True),
+                           'aimed-drop')
+        else:
+            check_pipeline(ctx, gen_pipeline_case(rng), 'random')
 
 
 def one_edit_variants(rng, case):
